@@ -36,11 +36,19 @@ func (c *Component) checkpointSession(sess *SessionState) {
 		return
 	}
 
-	go func() {
-		if err := c.opdb.Put(c.Ctx, opdb.NamespaceIPoESessions, sessID, data); err != nil {
-			c.logger.Warn("Failed to checkpoint session", "session_id", sessID, "error", err)
-		}
-	}()
+	// Off the packet path, but ordered against later checkpoints and the
+	// delete of the same session: a write still in flight when the session
+	// is released must not land after the delete.
+	c.checkpointWriter().PutAsync(c.Ctx, opdb.NamespaceIPoESessions, sessID, data, func(err error) {
+		c.logger.Warn("Failed to checkpoint session", "session_id", sessID, "error", err)
+	})
+}
+
+// checkpointWriter orders this component's session checkpoint writes per
+// session id (see opdb.OrderedWriter).
+func (c *Component) checkpointWriter() *opdb.OrderedWriter {
+	c.ckptOnce.Do(func() { c.ckpt = opdb.NewOrderedWriter(c.opdb) })
+	return c.ckpt
 }
 
 func (c *Component) deleteSessionCheckpoint(sessionID string) {
@@ -48,7 +56,7 @@ func (c *Component) deleteSessionCheckpoint(sessionID string) {
 		return
 	}
 
-	if err := c.opdb.Delete(c.Ctx, opdb.NamespaceIPoESessions, sessionID); err != nil {
+	if err := c.checkpointWriter().Delete(c.Ctx, opdb.NamespaceIPoESessions, sessionID); err != nil {
 		c.logger.Warn("Failed to delete session checkpoint", "session_id", sessionID, "error", err)
 	}
 }
@@ -73,7 +81,7 @@ func (c *Component) restoreSessions(ctx context.Context) error {
 		}
 
 		if c.isSessionExpired(&sess, now) {
-			if err := c.opdb.Delete(ctx, opdb.NamespaceIPoESessions, key); err != nil {
+			if err := c.checkpointWriter().Delete(ctx, opdb.NamespaceIPoESessions, key); err != nil {
 				c.logger.Warn("Failed to delete expired session", "key", key, "error", err)
 			}
 			expired++
@@ -90,7 +98,7 @@ func (c *Component) restoreSessions(ctx context.Context) error {
 			sess.AAAApproved = false
 			data, mErr := json.Marshal(&sess)
 			if mErr == nil {
-				if err := c.opdb.Put(ctx, opdb.NamespaceIPoESessions, sess.SessionID, data); err != nil {
+				if err := c.checkpointWriter().Put(ctx, opdb.NamespaceIPoESessions, sess.SessionID, data); err != nil {
 					c.logger.Warn("Failed to persist reset session", "session_id", sess.SessionID, "error", err)
 				}
 			}
@@ -545,7 +553,7 @@ func (c *Component) checkpointSessionSync(sess *SessionState) error {
 	if err != nil {
 		return fmt.Errorf("marshal session: %w", err)
 	}
-	return c.opdb.Put(c.Ctx, opdb.NamespaceIPoESessions, sess.SessionID, data)
+	return c.checkpointWriter().Put(c.Ctx, opdb.NamespaceIPoESessions, sess.SessionID, data)
 }
 
 func (c *Component) buildModelSnapshot(sess *SessionState) *models.IPoESession {
